@@ -241,6 +241,25 @@ example :
 
 end Pegnet.C13
 
+namespace Pegnet.C13
+open Pegnet
+/-- the shipped schedule, regenerated from config/activations.go and fat/fat2/activations.go on every
+    run, against the values this property was read with: the heights from which the one-way rules, the bank pass and the averages requirement apply. Every scenario of the harness
+    runs on a compressed schedule that overwrites these constants, so nothing else would notice one of
+    them moving; a moved height is a different protocol, not a rewrite. -/
+theorem shipped_schedule :
+    let a := Generated.activations
+    Generated.activationsComplete = true ∧ a.oneWayFCT = 220346 ∧ a.convLimit = 222270 ∧ a.oneWaySmall = 274036 ∧ a.pip10 = 295190 := by
+  decide
+end Pegnet.C13
+
+namespace Pegnet.C13
+open Pegnet
+/-- the averaging window the binary ships with (node/average.go, regenerated): 288 blocks, an average needs half of them — the scenarios run with a window of 8 -/
+theorem shipped_window : Generated.averagePeriod = 288 ∧ Generated.averageRequiredExpr = "AveragePeriod / 2" := by
+  decide
+end Pegnet.C13
+
 #print axioms Pegnet.C13.admission_table
 #print axioms Pegnet.C13.forbidden_destination_no_effect
 #print axioms Pegnet.C13.pfct_one_way
@@ -253,3 +272,5 @@ end Pegnet.C13
 #print axioms Pegnet.C13.cache_consistent_along_every_run
 #print axioms Pegnet.C13.average_published_only_with_enough_quotes
 #print axioms Pegnet.C13.thin_window_conversion_dropped
+#print axioms Pegnet.C13.shipped_schedule
+#print axioms Pegnet.C13.shipped_window
